@@ -235,15 +235,40 @@ int main(int argc, char **argv)
 
     if (gMode == "replay") {
         std::vector<uint32_t> tape;
-        if (!readReplay(replayFile, tape)) {
-            std::cerr << "cannot read " << replayFile << "\n";
-            return 20;
-        }
+        Case c;
+        bool isBin = replayFile.size() > 4 && replayFile.compare(replayFile.size() - 4, 4, ".bin") == 0;
         if (property.setMode != nullptr) {
             property.setMode("replay", gBound);
         }
-        Case c;
-        runCase(tape, c);
+        if (isBin) {
+            // a libFuzzer artifact: raw bytes for byte-level targets, otherwise a byte-encoded choice tape
+            std::ifstream in(replayFile, std::ios::binary);
+            if (!in) {
+                std::cerr << "cannot read " << replayFile << "\n";
+                return 20;
+            }
+            std::string bytes((std::istreambuf_iterator<char>(in)), std::istreambuf_iterator<char>());
+            if (gCaseTimeout > 0) {
+                alarm(static_cast<unsigned>(gCaseTimeout));
+            }
+            try {
+                if (property.runBytes != nullptr) {
+                    property.runBytes(reinterpret_cast<const uint8_t *>(bytes.data()), bytes.size(), c);
+                } else {
+                    ByteSrc src(reinterpret_cast<const uint8_t *>(bytes.data()), bytes.size());
+                    property.run(src, c);
+                }
+            } catch (const std::exception &e) {
+                c.fail(std::string("uncaught:") + demangle(typeid(e).name()) + "|" + e.what(), std::string("exception escaped to the caller: ") + e.what());
+            }
+            alarm(0);
+        } else {
+            if (!readReplay(replayFile, tape)) {
+                std::cerr << "cannot read " << replayFile << "\n";
+                return 20;
+            }
+            runCase(tape, c);
+        }
         std::cout << "# case\n"
                   << clip(c.text, 20000) << "\n";
         if (c.ok) {
